@@ -573,11 +573,26 @@ def check_own(ctx):
     ok = len(body) == 1 and isinstance(body[0], ast.Return) and norm_src(body[0].value) in ("self.node_list[depth]",)
     ctx.ob("R03-OWN", ok, model.classes["Partition"].file, "Partition.get_layer_node_list", "return self.node_list[depth]",
            "getter returns the layer itself", fn.lineno)
+    check_update_children(ctx, "R03-OWN")
+
+
+def check_update_children(ctx, rule):
+    """P_node.update_children replaces the children by exactly the cells of this split (the list it is given, or a copy)."""
+    model = ctx.model
     fn = model.method("P_node", "update_children")
     body = [s for s in fn.body if not (isinstance(s, ast.Expr) and isinstance(s.value, ast.Constant))]
-    ok = len(body) == 1 and isinstance(body[0], ast.Assign) and norm_src(body[0]) == "self.children = children"
-    ctx.ob("R03-OWN", ok, model.classes["P_node"].file, "P_node.update_children", "self.children = children",
-           "update_children stores the list it is given", fn.lineno)
+    params = [a.arg for a in fn.args.args[1:]]
+    ok = len(body) == 1 and isinstance(body[0], ast.Assign) and len(body[0].targets) == 1 and is_self_attr(body[0].targets[0], "children") \
+        and len(params) == 1
+    if ok:
+        v = body[0].value
+        if isinstance(v, ast.Call) and isinstance(v.func, ast.Name) and v.func.id == "list" and len(v.args) == 1 and not v.keywords:
+            v = v.args[0]
+        ok = isinstance(v, ast.Name) and v.id == params[0]
+    ctx.ob(rule, ok, model.classes["P_node"].file, "P_node.update_children", "self.children = <the list given>",
+           "update_children replaces the children by exactly the cells it is given" if ok else
+           "update_children does not simply replace self.children by the cells of this split: %s" % "; ".join(norm_src(b) for b in body)[:200],
+           fn.lineno)
 
 
 def layerlist_expr(e, aliases):
